@@ -835,6 +835,27 @@ class _:
                 ('seq', 'type', 'payload', 'callback', 'retry', 'assembled_time')]
 
 
+@contract('connection.ServerClientConnection.disconnect', props=['C10'])
+class _:
+    """the server-side override (what handlers and the sweeps call on a pooled client): the same outcome and the same frame as
+    the base method - the verified counterpart of the assumed pool-level summary disconnect@pool"""
+    def setup(E):
+        self = make_conn(E, cls=SCC)
+        E.ghost('conn', self)
+        return dict(self=self)
+    ensures = {
+        'ends-disconnected': lambda self, E: S.enum_is(self.status, E.member(STATUS, 'DISCONNECTED')),
+        'one-disconnect-message-for-the-peer-when-it-was-open': lambda old, self, E: S.ite(
+            S.enum_is(old.self.status, E.member(STATUS, 'CONNECTED')) | S.enum_is(old.self.status, E.member(STATUS, 'DISCONNECTING')),
+            (S.len(self.outgoing_messages) == 1) & S.enum_is(E.elem(self.outgoing_messages, 0).type, E.member(PTYPE, 'DISCONNECT'))
+            & (S.len(self.incoming_messages) == 0),
+            S.len(self.outgoing_messages) == S.len(old.self.outgoing_messages)),
+    }
+    modifies = ['self.status', 'self.outgoing_messages', 'self.incoming_messages', 'self.pending_callbacks', 'self.pending_retry',
+                'self.pending_acks', 'self.seq_message', 'self.stats.sent'] + ['field:PendingMessage.' + f for f in
+                ('seq', 'type', 'payload', 'callback', 'retry', 'assembled_time')]
+
+
 @contract('connection.ConnectionBase._encode_packet', props=['C03'])
 class _:
     """the client-side send site (UdpClient.update) and every test harness go through here: the packet is encoded with THIS
